@@ -186,3 +186,16 @@ m("c18-safe-typed-variants", "C18", "daemon/core/config.py", '''class COBalDLoad
 
 COBalDLoader.add_constructor("tag:yaml.org,2002:python/tuple", lambda loader, node: tuple(loader.construct_sequence(node)))
 ''')
+# ---- C01
+m("c01-asyncio-falsy-swallowed", "C01", "daemon/runners/asyncio_runner.py", "            if result is None:\n                return", "            if not result:\n                return")
+m("c01-thread-falsy-swallowed", "C01", "daemon/runners/thread_runner.py", "            if result is None:\n                return", "            if not result:\n                return")
+m("c01-trio-falsy-swallowed", "C01", "daemon/runners/trio_runner.py", "        if value is not None:\n            raise OrphanedReturn(payload, value)", "        if value:\n            raise OrphanedReturn(payload, value)")
+m("c01-gather-return-exceptions", "C01", "daemon/runners/meta_runner.py", "await asyncio.gather(*runner_tasks, self._unqueue_payloads())", "await asyncio.gather(*runner_tasks, self._unqueue_payloads(), return_exceptions=True)")
+m("c01-run-swallows-exception", "C01", "daemon/runners/meta_runner.py", "        except KeyboardInterrupt:\n            self._logger.info(\"runner interrupted\")", "        except (KeyboardInterrupt, LookupError):\n            self._logger.info(\"runner interrupted\")")
+m("c01-f1-revert", "C01", "daemon/runners/thread_runner.py", "            if isinstance(failure, StopIteration):", "            if False:")
+m("c01-asyncio-unmonitored-after-start", "C01", "daemon/runners/asyncio_runner.py",
+  "        task = self.asyncio_loop.create_task(self._monitor_payload(payload))", "        task = self.asyncio_loop.create_task(self._monitor_payload(payload) if not self._tasks else payload())")
+m("c01-orphan-value-str", "C01", "daemon/runners/base_runner.py", "        self.value = value", "        self.value = str(value)")
+m("c01-cause-dropped", "C01", "daemon/runners/meta_runner.py", 'raise RuntimeError("background task failed") from err', 'raise RuntimeError("background task failed: %s" % err) from None')
+m("c01-thread-failure-only-first-thread", "C01", "daemon/runners/thread_runner.py", "        self.asyncio_loop.call_soon_threadsafe(self._set_failure, failure)", "        if not isinstance(failure, OrphanedReturn) or failure.value:\n            self.asyncio_loop.call_soon_threadsafe(self._set_failure, failure)")
+m("c01-service-run-unmonitored", "C01", "daemon/runners/service.py", "            runner.register_payload(service.run, flavour=self.flavour)", "            runner.register_payload(service.run if self.flavour is not threading else (lambda: service.run() and None), flavour=self.flavour)")
